@@ -91,6 +91,7 @@ func extractC11(c *ctxT) {
 	sharesCmp := ""
 	offset := 0
 	var steps []string
+	var prog []string
 
 	if h != nil && h.Body != nil {
 		body := h.Body
@@ -233,6 +234,10 @@ func extractC11(c *ctxT) {
 		}
 	}
 
+	if h != nil && h.Body != nil {
+		prog = c.c11Prog(h.Body, c11ProgStart(c, h.Body))
+	}
+
 	allowCheck, allowSub := false, false
 	if da != nil && da.Body != nil {
 		for _, st := range da.Body.List {
@@ -294,7 +299,7 @@ func extractC11(c *ctxT) {
 
 /-- facts read from the AST of handlerTransferShares, decrementAllowance, the two Run methods
 (x/staking/precompile/transfer_shares.go) and the argument validators (x/staking/types/contract.go) -/
-structure Cfg where
+` + c11ProgTypes + c11WrapType + `structure Cfg where
   /-- an ` + "`if from == to { … return …, nil }`" + ` stands before the first state-changing call -/
   selfGuard : Bool
   /-- HasReceivingRedelegation(ctx, from…, valAddr) followed by ` + "`if has { return error }`" + ` -/
@@ -326,15 +331,19 @@ structure Cfg where
   transferFromArgs : Bool
   /-- Validate() of both argument structs rejects Shares.Sign() <= 0 -/
   sharesPositive : Bool
+  /-- the body of handlerTransferShares after the guards, statement by statement (see go/extract/c11prog.go) -/
+  prog : List Stmt
+  /-- the Run methods of delegateV2 / undelegateV2 / redelegateV2 / withdraw / approveShares (see go/extract/c11wrap.go) -/
+  wrappers : List Wrapper
 deriving Repr, DecidableEq
 
 `)
 	fmt.Fprintf(&sb, "def cfg : Cfg :=\n  { selfGuard := %s, refuseRecvRedel := %s, sharesCmp := %s, withdrawFrom := %s,\n"+
 		"    toLookupBeforeFromWrite := %s, withdrawTo := %s, incPeriodForNewTo := %s, decRefOnRemoval := %s,\n"+
 		"    delInfoOnRemoval := %s, incRefForNewTo := %s, newToPeriodOffset := %d, allowanceCheck := %s,\n"+
-		"    allowanceSubDecrease := %s, transferFromArgs := %s, sharesPositive := %s }\n\n",
+		"    allowanceSubDecrease := %s, transferFromArgs := %s, sharesPositive := %s,\n    prog := [\n      %s],\n    wrappers := %s }\n\n",
 		b(selfGuard), b(refuse), leanStr(sharesCmp), b(withdrawFrom), b(lookupFirst), b(withdrawTo), b(incPeriod), b(decRef),
-		b(delInfo), b(incRef), offset, b(allowCheck), b(allowSub), b(runArgs), b(sharesPositive))
+		b(delInfo), b(incRef), offset, b(allowCheck), b(allowSub), b(runArgs), b(sharesPositive), strings.Join(prog, ",\n      "), c11WrapLean(c.c11Wrappers()))
 	var ls []string
 	for _, s := range steps {
 		ls = append(ls, leanStr(s))
@@ -349,5 +358,6 @@ deriving Repr, DecidableEq
 		"allowanceCheck": allowCheck, "allowanceSubDecrease": allowSub, "transferFromArgs": runArgs, "sharesPositive": sharesPositive,
 	}
 	c.facts["C11.steps"] = steps
+	c.facts["C11.prog"] = prog
 	c.facts["C11.handlerFound"] = h != nil
 }
